@@ -8,6 +8,8 @@
 //
 //	file W <wspec> R <rspec> N <n> <rec>*
 //	wspec = S <nf> (<name:x..> <tag:x..> <kind>)*          kind = i f s gP gMP gLS gMLS gPG gB
+//	      | SM <k> <E|F>{k} <nf> (<name> <tag> <kind>)*    writer schedule on ONE NewEncoder encoder: record i is written with
+//	                                                       Encode (E) or EncodeFields (F) according to entry i mod k
 //	      | F <shapetype> <nf> (<name:x..> <type> <size> <prec>)*
 //	rspec = S <nf> (<name> <tag> <kind>)*                  kind additionally gI (a geom.Geom field); fresh record variable per row
 //	      | SR <nf> (<name> <tag> <kind>)*                 the same, decoding every row into ONE reused record variable
@@ -89,6 +91,7 @@ type spec struct {
 	names  []string
 	calls  []spec // path 'M': per-row reading schedule
 	reuse  bool   // reader path 'S': one record variable reused for all rows (var rec T; for d.DecodeRow(&rec))
+	wsched []byte // writer path 'S': per-record method 'E' (Encode) / 'F' (EncodeFields) on the one encoder; empty = all Encode
 }
 type fcase struct {
 	w, r spec
@@ -128,7 +131,17 @@ func (s spec) toks(b *strings.Builder, reader bool) {
 		if reader && s.reuse {
 			tag = "SR"
 		}
-		fmt.Fprintf(b, " %s %d", tag, len(s.sf))
+		if !reader && len(s.wsched) > 0 {
+			fmt.Fprintf(b, " SM %d", len(s.wsched))
+			for _, m := range s.wsched {
+				fmt.Fprintf(b, " %c", m)
+			}
+			tag = ""
+		}
+		if tag != "" {
+			b.WriteString(" " + tag)
+		}
+		fmt.Fprintf(b, " %d", len(s.sf))
 		for _, f := range s.sf {
 			fmt.Fprintf(b, " %s %s %s", hx("x", f.name), hx("x", f.tag), f.kind)
 		}
@@ -187,9 +200,15 @@ func parseVal(t string) val {
 func parseSpec(p *vproto.Parser, reader bool) spec {
 	var s spec
 	switch t := p.Next(); t {
-	case "S", "SR":
+	case "S", "SR", "SM":
 		s.path = 'S'
 		s.reuse = t == "SR"
+		if t == "SM" {
+			k := p.Int()
+			for i := 0; i < k; i++ {
+				s.wsched = append(s.wsched, p.Next()[0])
+			}
+		}
 		n := p.Int()
 		for i := 0; i < n; i++ {
 			s.sf = append(s.sf, sfield{unhx(p.Next()), unhx(p.Next()), p.Next()})
@@ -327,7 +346,7 @@ func runCase(c fcase) string {
 		return "newenc-err"
 	}
 	b.WriteString("W")
-	for _, r := range c.recs {
+	for ri, r := range c.recs {
 		var e error
 		var pan string
 		if c.w.path == 'S' {
@@ -354,7 +373,22 @@ func runCase(c fcase) string {
 					v.Field(i).SetString(x.s)
 				}
 			}
-			pan = vproto.Safe(func() { e = enc.Encode(v.Interface()) })
+			if len(c.w.wsched) > 0 && c.w.wsched[ri%len(c.w.wsched)] == 'F' {
+				// the same record through EncodeFields on the SAME encoder: geometry value of the struct field,
+				// attribute values in column order
+				var gv geom.Geom
+				var vals []interface{}
+				for i, f := range c.w.sf {
+					if isGeomKind(f.kind) {
+						gv, _ = v.Field(i).Interface().(geom.Geom)
+					} else {
+						vals = append(vals, v.Field(i).Interface())
+					}
+				}
+				pan = vproto.Safe(func() { e = enc.EncodeFields(gv, vals...) })
+			} else {
+				pan = vproto.Safe(func() { e = enc.Encode(v.Interface()) })
+			}
 		} else {
 			vals := make([]interface{}, len(r.vals))
 			for i, x := range r.vals {
